@@ -513,3 +513,52 @@ def intval(W, ev, t, depth=0):
             if r != t:
                 return intval(W, ev, r, depth + 1)
     return None
+
+
+# ------------------------------------------------------------------------------------------------ arithmetic expressions
+class NotArith(Exception):
+    pass
+
+
+def arith_eval(t, env):
+    """Evaluate an integer-valued term given values for its free leaves (env: term -> int).  Raises NotArith when the
+    term contains anything but integer arithmetic.  Used to compare two *extracted expressions* on a grid of inputs
+    (expression equivalence), never to run repository code."""
+    if t in env:
+        return env[t]
+    if not isinstance(t, tuple) or not t:
+        raise NotArith(str(t))
+    k = t[0]
+    if k == "int":
+        return t[1]
+    if k == "cast":
+        v = arith_eval(t[3], env)
+        rng = values.INT_RANGES.get(t[2])
+        if rng is None:
+            raise NotArith("cast to " + t[2])
+        lo, hi = rng
+        return (v - lo) % (hi - lo + 1) + lo
+    if k == "bin":
+        a, b = arith_eval(t[2], env), arith_eval(t[3], env)
+        f = values.fold_bin(t[1], ("int", a), ("int", b))
+        if f is None:
+            raise NotArith("op " + t[1])
+        return f[1]
+    if k == "call":
+        name = callee_name(t[1])
+        args = [arith_eval(a, env) for a in t[2]]
+        if name == "pow" and len(args) == 2:
+            return args[0] ** args[1]
+        if name in ("wrapping_add", "saturating_add", "checked_add") and len(args) == 2:
+            return args[0] + args[1]
+        if name in ("from", "into") and len(args) == 1:
+            return args[0]
+        raise NotArith("call " + t[1])
+    if k == "vfield":
+        return arith_eval(t[1], env)
+    if k == "phi":
+        vs = {arith_eval(a, env) for a in t[1]}
+        if len(vs) == 1:
+            return vs.pop()
+        raise NotArith("phi")
+    raise NotArith(k)
